@@ -299,6 +299,7 @@ def gen_ops(rng, root, env, n, profile="mixed", bad=0.3):
                 op["x"] = gen.tree_for(rng, item, env, valid=True, partial=rng.choice([0.5, 0.9, 1.0]))
             op["xs"] = [ival("valid" if rng.random() < 0.8 else want) for _ in range(rng.choice([0, 1, 2, 3]))]
             op["iter"] = rng.choice(["list", "tuple", "iter", "gen"])
+            op["index_object"] = rng.random() < 0.4
             op["a"], op["b"] = rng.choice([None, 0, 1, -1]), rng.choice([None, 0, 2, -1])
             ops.append(op)
         elif kind == "dictop" and dicts:
@@ -339,6 +340,17 @@ def gen_ops(rng, root, env, n, profile="mixed", bad=0.3):
             ops.append({"op": "set", "route": "attr", "path": (p + "." if p else "") + rng.choice(["extra1", "extra2", "zz9"]),
                         "value": rng.choice([1, "x", [1, 2], {"a": 1}, None]), "dynamic": True})
     return ops
+
+
+class _Index:
+    def __init__(self, i):
+        self.i = i
+
+    def __index__(self):
+        return self.i
+
+    def __repr__(self):
+        return "Index(%d)" % self.i
 
 
 def alias_probe_ops(rng, schema, env):
@@ -416,7 +428,8 @@ class Driver:
         for seg in path.split("."):
             name = seg.replace("[]", "")
             try:
-                cur = getattr(cur, name)
+                # item access on configurations: a key may be spelled like a method of the Config class
+                cur = cur[name] if hasattr(type(cur), "_get_value") else getattr(cur, name)
             except Exception:
                 return None
             if seg.endswith("[]"):
@@ -1049,6 +1062,14 @@ class Driver:
         return {"kind": "set-forward", "path": path, "raised": exc, "label": bool(ok1 and ok2), "pred": pred, "before": before,
                 "listed": False, "node": nd, "partial": bool(ok1 and not ok2)}
 
+    def _op_loads_raw(self, op):
+        """Load a hand-written document (text given as it is, not produced by a codec)."""
+        before = self.snapshot()
+        exc = self._run(lambda: self.cfg.loads(op["doc"].encode() if isinstance(op["doc"], str) else op["doc"], op["fmt"]))
+        pred = Prediction(None, None)
+        pred.unpredicted = True
+        return {"kind": "loads-raw", "path": "", "raised": exc, "label": None, "pred": pred, "before": before, "listed": False}
+
     def _op_cmdline_ns(self, op):
         """cmdline_args_override with a hand-made Namespace: known options, options a (dynamic or fixed) section
         does not declare, unknown top-level destinations.  The effect on the configuration is not predicted."""
@@ -1144,6 +1165,8 @@ class Driver:
         else:
             label = True
         i = op["i"]
+        if op.get("index_object") and name in ("setitem", "insert", "pop", "delitem"):
+            i = _Index(i)  # an integer-like object (numpy integers, enum members): the builtin takes it through __index__
         if op.get("as_config") and single and isinstance(op["x"], dict):
             # a configuration *object* (not a map) as the item: built outside, possibly invalid as a whole
             try:
